@@ -498,7 +498,7 @@ func C09Gen(r *Run) {
 	// random sequences
 	nseq, seqLen := 20, 20
 	if r.Tier == "thorough" {
-		nseq, seqLen = 500, 40
+		nseq, seqLen = 300, 40
 	}
 	for s := 0; s < nseq && !h.hung; s++ {
 		emit(reset)
